@@ -2,7 +2,7 @@
    Print Assumptions on every one of them on every check run. *)
 From Coq Require Import List NArith ZArith Bool Arith Sorted.
 From Kenlm Require Import C11.FilterSpec C11.IntersectModel C11.FilterModel C11.IntersectProofs C11.VocabProofs
-  C11.TokenProofs C11.OutputProofs C11.QueryProofs C11.PhraseProofs.
+  C11.TokenProofs C11.OutputProofs C11.QueryProofs C11.PhraseProofs C11.ReaderProofs.
 Import ListNotations.
 
 (* util/multi_intersection.hh on sorted posting lists: FirstIntersection returns the least common element (or
@@ -30,6 +30,13 @@ Theorem C11_vocab_modes_exact : forall cfg bytes ws, cphrase cfg = false -> word
                    forall j, In j l <-> j < length (read_multiple bytes) /\ keep_multiple (read_multiple bytes) j ctx ws = true
   end.
 Proof. exact targets_exact. Qed.
+
+(* what "the vocabulary of a sentence" is in terms of the bytes of the vocabulary file: the reader automaton
+   (vocab::ReadMultiple / ReadSingle) yields the white-space separated words of every line ('\n' only) that has a
+   word; blank lines do not consume a sentence number. *)
+Theorem C11_vocabulary_reader_spec : forall s,
+  read_multiple s = sentences_spec s /\ read_single s = concat (sentences_spec s).
+Proof. intros s. split; [exact (read_multiple_spec s)|exact (read_single_spec s)]. Qed.
 
 (* the n-gram the filter sees in an ARPA line `prob TAB n-gram [TAB back-off]` / a raw line `n-gram [TAB ...]` *)
 Theorem C11_line_ngram : forall p ws tail, ~ In TAB p -> words_ok ws -> (tail = [] \/ exists b, tail = TAB :: b) ->
